@@ -40,6 +40,7 @@ SpecStep(t, s, ev) ==
     [] ev.kind = "cancel_order"    -> P(t)!CancelOrder(s, ev.arg)
     [] ev.kind = "create_loan"     -> P(t)!CreateLoanI(s, ev.arg.sym, ev.arg.amount)
     [] ev.kind = "repay_loan"      -> P(t)!RepayLoanI(s, ev.arg, "repay")
+    [] ev.kind = "set_cond"        -> [ok |-> TRUE, err |-> "", s |-> P(t)!SetCond(s, ev.arg.sym, ev.arg.which)]
     [] ev.kind = "get_open_orders" -> [ok |-> TRUE, err |-> "", s |-> P(t)!TouchN(s, ev.arg)]
 
 \* an order record for a request the implementation accepted although the spec refused it
@@ -63,7 +64,7 @@ Overlay(t, pre, post, ev) ==
       loan(j) == LET x == ob.loans[j]
                      base == IF j <= Len(post.loans) THEN post.loans[j]
                              ELSE [sym |-> x.sym, amount |-> x.amount, at |-> post.clock, open |-> TRUE,
-                                   paid |-> P(t)!D0, cause |-> "none"] IN
+                                   paid |-> P(t)!D0, cause |-> "none", c |-> post.cond[x.sym]] IN
                  [base EXCEPT !.open = x.open, !.paid = x.paid, !.sym = x.sym, !.amount = x.amount]
   IN [post EXCEPT !.bal = ob.bal, !.hold = ob.hold, !.bor = ob.bor,
                   !.orders = [i \in 1..no |-> ord(i)],
